@@ -277,7 +277,7 @@ def run_book(case):
 
 def legs(tier):
     nmax = 5 if tier == 'quick' else 7
-    return [Leg('matrix', _case(), run, 2500, 100000, max_shrink_buckets=6),
+    return [Leg('matrix', _case(), run, 10000, 100000, max_shrink_buckets=6),
             Leg('exhaustive-blocks', None, run_book, 0, 0, cases=lambda: _all_blocks(nmax))]
 
 
